@@ -69,7 +69,7 @@ def enum_protocol(tier: str):
     where = ["call", "policy", "both", "none"]
     decisions = [["sleep", "sleep", "sleep"], ["defer"], ["sleep", "defer"], ["abort"], ["sleep", "sleep", "abort"], None]
     entries = ["Retry.call", "Retry.execute", "AsyncRetry.call", "AsyncRetry.execute", "Policy.call", "AsyncPolicy.execute", "RetryPolicy.execute"]
-    flavours = ["async", "sync", "awaitable", "awaitable_obj"]
+    flavours = ["async", "sync", "awaitable", "awaitable_obj", "gen_coroutine"]
     for sl, bf, hd, dec, e in itertools.product(where, where, ["call", "policy", "both"], decisions, entries):
         fl = flavours if e.startswith("Async") else ["sync"]
         for f1 in fl:
